@@ -24,8 +24,8 @@ TRUSTED = ['numpy.linalg.eigh is an oracle (H_c = 0: eigenvalues 0, eigenvectors
            'floating-point rounding of the implementation is absorbed in the comparison tolerance (1e-8 relative)']
 ASSUMPTIONS = ['ideal pi pulses are represented by sign flips of the dephasing sensitivity (the statement of C19)',
                'the finite-width limit is sampled (widths 1e-2..1e-5 tau), not proved',
-               'the identification of w^2 F with Spec/DD.v dd_F is proved per segment (C19_segment_is_model) and '
-               'checked numerically for whole sequences (model evaluation in Coq), not proved for whole sequences']
+               'C19_model_is_spec / C19_filter_function_is_dd_F (w^2 F of the package formula = Spec/DD.v dd_F) assume the eigh '
+               'oracle output for H = 0 (eigenvalues 0, eigenvectors 1; validated per case) and |w dt| > 1e-7 on every segment']
 REL = 1e-8
 FAMILIES = ['FID', 'SE', 'PDD', 'CPMG', 'CDD', 'UDD']
 
